@@ -73,11 +73,11 @@ fn accuracy_block<T: Real + Elem>(ctx: &mut Ctx, lens: &[usize], c02: bool, ligh
             }
             // dense / structured vectors with references
             let fams: Vec<&str> = if light {
-                vec!["uniform"]
+                if c02 { vec!["uniform", "const_nd"] } else { vec!["uniform"] }
             } else if c02 {
                 FAMILIES.iter().copied().filter(|f| *f != "impulse").collect()
             } else {
-                vec!["uniform", ["constant", "tone_on", "alternating", "normal"][n % 4]]
+                vec!["uniform", ["constant", "tone_on", "alternating", "normal", "const_nd", "real_only", "ramp", "spikes"][n % 8]]
             };
             for (fi, fam) in fams.iter().enumerate() {
                 let x: Vec<Complex<T>> = gen_input(fam, n, 1 + n / 3, &mut ctx.rng);
@@ -325,19 +325,37 @@ fn chunks_block<T: Real + Elem>(ctx: &mut Ctx, lens: &[usize]) {
                 Some(pl) => pl,
                 None => continue,
             };
-            for (ei, e) in SCRATCH_ENTRIES.iter().copied().enumerate() {
+            for (ei, e) in ALL_ENTRIES.iter().copied().enumerate() {
                 // three chunk counts per entry, rotating so that 1..8 are all covered over consecutive n
                 let ks = [1 + (n + ei) % 8, 1 + (n + ei + 3) % 8, 1 + (n + ei + 5) % 8];
-                for k in ks {
+                for (ki, k) in ks.into_iter().enumerate() {
                     ctx.case(format!("{} {} {} {} k{}", kind.name(), T::ELEM, n, e.name(), k), k >= 2);
-                    let x: Vec<Complex<T>> = gen_input("uniform", n * k, 0, &mut ctx.rng);
+                    let mut x: Vec<Complex<T>> = gen_input("uniform", n * k, 0, &mut ctx.rng);
+                    // the third call mixes special-valued chunks among the dense ones (all zero, constant, one impulse): what a
+                    // chunk holds must not influence how its neighbours (or it itself) are processed
+                    let special = ki == 2 && k >= 2;
+                    if special {
+                        for c in 0..k {
+                            let sel = (c + n + ei) % 4;
+                            let chunk = &mut x[c * n..(c + 1) * n];
+                            match sel {
+                                1 => chunk.iter_mut().for_each(|v| *v = czero::<T>()),
+                                2 => chunk.iter_mut().for_each(|v| *v = Complex { re: T::of_f64(1.0), im: T::of_f64(0.0) }),
+                                3 => {
+                                    chunk.iter_mut().for_each(|v| *v = czero::<T>());
+                                    chunk[(c + 1) % n] = Complex { re: T::of_f64(1.0), im: T::of_f64(0.0) };
+                                }
+                                _ => {}
+                            }
+                        }
+                    }
                     let singles = match single_results(&pl, &x, n) {
                         Some(s) => s,
                         None => continue,
                     };
                     let scratch = vec![czero::<T>(); pl.adv[e.scratch_index()]];
                     let out = vec![czero::<T>(); if e.two_buffers() { n * k } else { 0 }];
-                    ctx.call(&pl, e, &x, &out, &scratch, None, json!({"family": "uniform", "k": k}), |r| {
+                    ctx.call(&pl, e, &x, &out, &scratch, None, json!({"family": if special { "special-chunks" } else { "uniform" }, "k": k}), |r| {
                         if r.panic.is_some() {
                             return vec![];
                         }
@@ -349,6 +367,9 @@ fn chunks_block<T: Real + Elem>(ctx: &mut Ctx, lens: &[usize]) {
                         }
                         vec![json!({"kind": "err", "ref": "single", "err_q": worst, "bit_equal": bit_equal})]
                     });
+                }
+                if e == Entry::Process {
+                    continue;
                 }
                 // isolation: every chunk but one is NaN
                 let k = 2 + (n + ei) % 7;
